@@ -38,8 +38,16 @@ def _valid_sk(x):
     return T.raw_op('VALID_SK', x)
 
 
+class UnmodelledKeyword(Exception):
+    pass
+
+
 def _kw(args, kwargs, names, defaults=None):
-    """bind positional/keyword arguments of an external by name"""
+    """bind positional/keyword arguments of an external by name; a keyword the summary does not model is never
+    silently ignored"""
+    for k in kwargs:
+        if k not in names:
+            raise UnmodelledKeyword(k)
     out = {}
     defaults = defaults or {}
     for n, a in zip(names, args):
@@ -234,6 +242,13 @@ def star_call(ev, callee, args, kwargs, fr, node):
 
 
 def ext_call(ev, dotted, args, kwargs, fr, node):
+    try:
+        return _ext_call(ev, dotted, args, kwargs, fr, node)
+    except UnmodelledKeyword as e:
+        return T.opaque('keyword %s= of %s is not modelled by the summary table' % (e, dotted))
+
+
+def _ext_call(ev, dotted, args, kwargs, fr, node):
     name = dotted
     short = dotted.split('.')[-1]
     if dotted in ('bytes.fromhex', 'builtins.bytes.fromhex'):
@@ -415,13 +430,17 @@ def ext_call(ev, dotted, args, kwargs, fr, node):
         fr.facts = fr.facts.add(_valid_sk(b))
         return T.raw_op('ECDSA_SK', b)
     if dotted == 'ecdsa.VerifyingKey.from_string':
-        a = _kw(args, kwargs, ['string', 'curve'], {'curve': T.ext('ecdsa.curves.NIST192p')})
+        a = _kw(args, kwargs, ['string', 'curve', 'hashfunc', 'validate_point'],
+                {'curve': T.ext('ecdsa.curves.NIST192p'), 'validate_point': T.TRUE})
         if a['curve'] != SECP_CURVE:
             return T.raw_op('POINT_OTHERCURVE', a['string'], a['curve'])
+        if T.truth(a['validate_point']) != T.TRUE:
+            # the documented switch that skips the on-curve check: no validity contract, a different operator
+            return T.raw_op('PARSE_PT_UNVALIDATED', a['string'], a['validate_point'])
         fr.facts = fr.facts.add(T.raw_op('ON_CURVE', a['string']))
         return T.parse_pt(a['string'])
     if dotted == 'ecdsa.VerifyingKey.from_public_point':
-        a = _kw(args, kwargs, ['point', 'curve'], {'curve': T.ext('ecdsa.curves.NIST192p')})
+        a = _kw(args, kwargs, ['point', 'curve', 'hashfunc', 'validate_point'], {'curve': T.ext('ecdsa.curves.NIST192p')})
         if a['curve'] != SECP_CURVE:
             return T.raw_op('POINT_OTHERCURVE', a['point'], a['curve'])
         return a['point']
